@@ -11,10 +11,12 @@
    layouts and on both engines and compares the traces byte for byte (harness/props/c16.py).
    Beyond the individual reads, C16_event_oracle_independent / C16_runs_oracle_independent lift this to whole steps and
    whole runs (relational proof through selection, exit, actions, history, entry, done events, scheduling, rollback).
-   PARTIAL: region entry order follows document order in code and model alike (no set involved); transitions targeting
-   history states are outside the whole-step theorems; generated identifiers (actor ids, timer keys) are outside the
+   C16_event_oracle_independent_h / C16_runs_oracle_independent_h do the same with transitions to HISTORY pseudo-states
+   allowed (the order in which deep history restores regions was the defect F3): the invariant carried along is legality
+   plus the consistency of the history store (Proofs/HistoryP.v, PermHP.v).
+   PARTIAL: region entry order follows document order in code and model alike (no set involved); generated identifiers (actor ids, timer keys) are outside the
    model and only covered by the subprocess comparison. *)
-From XSM Require Import Model.Macro Proofs.SortP Proofs.OrderP Proofs.HistP Proofs.LegalP Proofs.DescentP Proofs.InvariantP Proofs.PermP Proofs.SelectP.
+From XSM Require Import Model.Macro Proofs.SortP Proofs.OrderP Proofs.HistP Proofs.LegalP Proofs.DescentP Proofs.InvariantP Proofs.PermP Proofs.SelectP Proofs.HistoryP Proofs.InvariantHP Proofs.PermHP.
 From Coq Require Import Permutation.
 
 (* sorting with a strict total order gives one result per SET *)
@@ -42,8 +44,8 @@ Print Assumptions C16_can_independent.
 (* the order in which states are exited (and hence the order of exit actions across parallel regions) *)
 Theorem C16_exit_order_independent : forall m, ids_distinct m -> forall C1 C2,
   Forall (fun s => s < size m) C1 -> NoDup C1 -> Permutation C1 C2 ->
-  forall d tgt, sort_by (lt_depth_id m) (exit_set m C1 d tgt) = sort_by (lt_depth_id m) (exit_set m C2 d tgt).
-Proof. exact exit_order_independent. Qed.
+  forall H d tgt, sort_by (lt_depth_id m) (exit_set_h m C1 H d tgt) = sort_by (lt_depth_id m) (exit_set_h m C2 H d tgt).
+Proof. exact exit_order_independent_h. Qed.
 Print Assumptions C16_exit_order_independent.
 
 (* what a history state remembers, in order (hence the entry order when history is restored) *)
@@ -75,14 +77,28 @@ Theorem C16_event_oracle_independent : forall m, wf m = true -> twf m = true -> 
   forall eng pr ev s1 s2, eqv m s1 s2 -> Legal m (s_cfg s1) ->
   eqv m (fst (process_event eng pr m ev s1)) (fst (process_event eng pr m ev s2))
   /\ snd (process_event eng pr m ev s1) = snd (process_event eng pr m ev s2).
-Proof. exact process_event_eqv. Qed.
+Proof. exact PermP.process_event_eqv. Qed.
 Print Assumptions C16_event_oracle_independent.
 
 Theorem C16_runs_oracle_independent : forall m, wf m = true -> twf m = true -> good_initials m = true -> safe_targets m -> ids_distinct m ->
   forall evs s1 s2, eqv m s1 s2 -> Legal m (s_cfg s1) ->
   eqv m (fold_left (fun s ev => catch (sync_send m ev) s) evs s1) (fold_left (fun s ev => catch (sync_send m ev) s) evs s2).
-Proof. exact sends_eqv. Qed.
+Proof. exact PermP.sends_eqv. Qed.
 Print Assumptions C16_runs_oracle_independent.
+
+(* ... and with transitions to history pseudo-states allowed *)
+Theorem C16_event_oracle_independent_h : forall m, wf m = true -> twf m = true -> good_initials m = true -> safe_targets_h m -> ids_distinct m ->
+  forall eng pr ev s1 s2, eqv m s1 s2 -> Legal m (s_cfg s1) /\ HistOK m (s_hist s1) ->
+  eqv m (fst (process_event eng pr m ev s1)) (fst (process_event eng pr m ev s2))
+  /\ snd (process_event eng pr m ev s1) = snd (process_event eng pr m ev s2).
+Proof. exact PermHP.process_event_eqv. Qed.
+Print Assumptions C16_event_oracle_independent_h.
+
+Theorem C16_runs_oracle_independent_h : forall m, wf m = true -> twf m = true -> good_initials m = true -> safe_targets_h m -> ids_distinct m ->
+  forall evs s1 s2, eqv m s1 s2 -> Legal m (s_cfg s1) /\ HistOK m (s_hist s1) ->
+  eqv m (fold_left (fun s ev => catch (sync_send m ev) s) evs s1) (fold_left (fun s ev => catch (sync_send m ev) s) evs s2).
+Proof. exact PermHP.sends_eqv. Qed.
+Print Assumptions C16_runs_oracle_independent_h.
 
 Theorem C16_eqv_means_same_observations : forall m s1 s2, eqv m s1 s2 ->
   s_log s1 = s_log s2 /\ s_ctx s1 = s_ctx s2 /\ s_hist s1 = s_hist s2 /\ s_status s1 = s_status s2 /\ s_output s1 = s_output s2
@@ -114,9 +130,9 @@ Example C16_ex :
   ids_distinctb ex_m = true /\
   let C1 := [0; 1; 2; 4; 5; 6] in let C2 := [6; 5; 4; 2; 1; 0] in
   Permutation C1 C2 /\ NoDup C1 /\
-  sort_by (lt_depth_id ex_m) (exit_set ex_m C1 0 8) = [1; 2; 5; 4; 6] /\
-  sort_by (lt_depth_id ex_m) (exit_set ex_m C2 0 8) = [1; 2; 5; 4; 6] /\
-  exit_set ex_m C1 0 8 <> exit_set ex_m C2 0 8 /\
+  sort_by (lt_depth_id ex_m) (exit_set_h ex_m C1 [] 0 8) = [1; 2; 5; 4; 6] /\
+  sort_by (lt_depth_id ex_m) (exit_set_h ex_m C2 [] 0 8) = [1; 2; 5; 4; 6] /\
+  exit_set_h ex_m C1 [] 0 8 <> exit_set_h ex_m C2 [] 0 8 /\
   remembered ex_m C2 1 = [2; 5; 4; 6].
 Proof.
   split; [vm_compute; reflexivity|]. cbv zeta. split; [|split].
